@@ -449,9 +449,13 @@ func runC12(c *Ctx) {
 					return false
 				}
 
-				_, local := st.Addr.(*ssa.Alloc)
+				// only the event handed over by reference: the address is a parameter or a captured variable
+				switch st.Addr.(type) {
+				case *ssa.Parameter, *ssa.FreeVar:
+					return true
+				}
 
-				return !local
+				return false
 			}) {
 				st := in.(*ssa.Store)
 
